@@ -61,7 +61,7 @@ class CFormatter(Formatter):
 
     @override(Formatter)
     def format_import_statement(self, t: Proto, as_name: Optional[str] = None) -> str:
-        return '#include "{0}_bp.h"'.format(t.name)
+        return '#include "{0}.h"'.format(self.format_out_basename(t))
 
     ##################
     # Naming prefix
